@@ -6,7 +6,9 @@ Correspondence: harness/heapcorr.py - random histories executed on hl7apy and re
 full state dump compared after EVERY step; a third of the shards is also replayed with the exotic
 paths switched off (hypothesis `hist_plain` of the partial theorems).
 Oracle: after every step, successful or rejected, the REAL object graph reachable from the handles
-is walked and the property's clauses are evaluated on it.
+is walked and the property's clauses are evaluated on it.  Operations outside the model's alphabet -
+construction with parent=..., add_<child> through a chain of reads, re-assignment of a listed repetition to another
+position of the same parent - form a small oracle-only family.
 """
 import json
 import os
@@ -142,6 +144,8 @@ def in_traversal_index(impl, el):
 def classify(impl_before_listed, op):
     """the cause attribute of an invariant break, from the operation that caused it"""
     k = op[0]
+    if k == 'newchild':
+        return 'construct-with-parent'
     if k == 'setparent' and op[2] is None and impl_before_listed:
         return 'parent-none-of-listed'
     if impl_before_listed and k in ('add', 'setattr', 'setindex', 'setlistindex', 'setparent'):
@@ -282,6 +286,32 @@ def main(argv=None):
         shapes.add((v, lvl, 'msg', tuple(sorted(set((o[0], c) for o, c in zip(g.ops, g.codes))))))
         if k == 7:
             samples.append({'version': v, 'level': lvl, 'message_level': True, 'ops': g.ops, 'codes': g.codes})
+    # operations outside the Coq model's alphabet (judged by the oracle only): construction with parent=..., the
+    # add_<child> helpers called through a chain of reads, and the re-assignment of a listed repetition to another
+    # position of the same parent
+    stats['construct_histories'] = 0
+    fam = []
+    for v in versions:
+        for lvl in (H.TOLERANT, H.STRICT):
+            fam += [
+                (v, lvl, [['newfield', lvl, 'PID_1', None], ['newchild', 0, None, 'SI'], ['lenlist', 0]]),
+                (v, lvl, [['newfield', lvl, 'PID_5', None], ['newchild', 0, 'XPN_1', None], ['lenlist', 0]]),
+                (v, lvl, [['newfield', lvl, 'PID_5', None], ['newchild', 0, None, 'FN'], ['newchild', 0, None, 'ST']]),
+                (v, lvl, [['newseg', lvl, 'PID'], ['newchild', 0, 'PID_3', None], ['newchild', 0, 'PID_3', None]]),
+                (v, lvl, [['newseg', lvl, 'PID'], ['newchild', 0, None, 'ST'], ['toer7', 0]]),
+                (v, lvl, [['newcomp', lvl, 'CX_4', None], ['newchild', 0, None, 'IS'], ['newchild', 0, 'HD_1', None]]),
+                (v, lvl, [['newseg', lvl, 'PID'], ['addhelperchain', 0, ['pid_5'], 'xpn_1'], ['setvalue', 1, 'A']]),
+                (v, lvl, [['newseg', lvl, 'PID'], ['readvalue', 0, ['pid_3']], ['addhelperchain', 0, ['pid_3'], 'cx_1']]),
+                (v, lvl, [['newmsg', lvl, 'ADT_A01', None], ['addhelperchain', 0, ['pid'], 'pid_1'], ['setvalue', 1, '1']]),
+                (v, lvl, [['newseg', lvl, 'PID'], ['setindex', 0, ['pid_3'], 0, ['t', 'A']], ['setindex', 0, ['pid_3'], 1, ['t', 'B']],
+                          ['grab', 0, ['pid_3'], 1], ['setindex', 0, ['pid_3'], 0, ['e', 1]]]),
+                (v, lvl, [['newseg', lvl, 'PID'], ['setindex', 0, ['pid_3'], 0, ['t', 'A']], ['setindex', 0, ['pid_3'], 1, ['t', 'B']],
+                          ['grab', 0, ['pid_3'], 0], ['setattr', 0, ['pid_3'], ['e', 1]], ['setlistindex', 0, 1, ['e', 1]]]),
+            ]
+    for v, lvl, ops in fam:
+        stats['construct_histories'] += 1
+        oracle_on_history(run, v, ops, stats, lvl)
+        shapes.add((v, lvl, 'construct', tuple(o[0] for o in ops)))
     run.log('implementation side: %d histories, %d steps (%d rejected), %d oracle failures'
             % (sum(len(c) for c in all_cases.values()), stats['steps'], stats['rejected_steps'], len(run.failures)))
     evaluated = steps = nplain = 0
@@ -334,14 +364,15 @@ def main(argv=None):
     ])
 
 
-def oracle_on_history(run, v, ops):
+def oracle_on_history(run, v, ops, stats=None, lvl=None):
     class G(object):
         pass
     g = G()
     g.ops = []
-    stats = {'steps': 0, 'rejected_steps': 0, 'inv_evaluations': 0, 'histories_with_break': 0,
-             'histories_safe': 0, 'steps_with_element_argument': 0}
-    hook, state = make_hook(run, g, v, None, stats)
+    if stats is None:
+        stats = {'steps': 0, 'rejected_steps': 0, 'inv_evaluations': 0, 'histories_with_break': 0,
+                 'histories_safe': 0, 'steps_with_element_argument': 0}
+    hook, state = make_hook(run, g, v, lvl, stats)
 
     def h2(impl, kk, op, phase, data):
         hook(impl, kk, op, phase, data)
